@@ -153,7 +153,7 @@ def impl_value(model):
     return float(v.reshape(-1)[0])
 
 
-def json_case_lean(ck: Check, drv, torch, case, tag):
+def json_case_lean(ck: Check, drv, torch, case, tag, out=None):
     """discrete + float correspondence of one JSON case. Returns (impl value or None)."""
     try:
         model = G.build_model(case)
@@ -265,6 +265,9 @@ def json_case_lean(ck: Check, drv, torch, case, tag):
                + G.fl([v for r in lean_tips for p in r for v in p]) + " | " + G.fl(pat["weights"]))
     rep = drv.ask(req)
     w = rep.split()
+    if out is not None:
+        out.update(S=S, K=K, N=N, pi=pi, probs=probs, mats=flat_m, tips=lean_tips, weights=pat["weights"], tree=t, taxa=taxa,
+                   site_liks=[h2f(x) for x in w[1:w.index("ll")]] if rep.startswith("ok") and "ll" in w else None)
     lean_ll = h2f(w[-1]) if rep.startswith("ok") and "ll" in w else None
     if lean_ll is None or not close(lean_ll, impl, TOL_LEAN):
         ck.mismatch("log-likelihood differs from Lean Float model", {"case": case, "impl": impl, "model": lean_ll if lean_ll is not None else rep[:100]})
